@@ -753,10 +753,11 @@ class Roi2dCorr(Corr):
 class C06(Prop):
     id = "C06"
     props_file = "Props/C06.v"
+    extra_props_files = ["Props/C06Clip.v"]
     gen_files = []
     design_ref = "DESIGN.md section 4, C06"
     technique = ("Rocq proofs over an exact rational model of yaw-only boxes / integer ROIs (squared distances, closed-form axis-aligned "
-                 "intersection, IoU algebra relative to an intersection-area function, plane distance with its argsort selection) + "
+                 "intersection, IoU algebra, an exact Sutherland-Hodgman/shoelace evaluator of the intersection area with proved area laws (convexity preservation, Green's formula per clipping pass, additivity of cuts, monotonicity, symmetry, rigid invariance), plane distance with its argsort selection) + "
                  "in-Coq correspondence of the four MatchingMethod values against the model and against an exact Sutherland-Hodgman "
                  "clipper evaluated with vm_compute")
     level_text = ("Theorems (Props/C06.v, all closed under the global context), for ALL rationals: centre distance^2 is the Euclidean "
@@ -771,39 +772,42 @@ class C06(Prop):
                   "corners that are nearest to the ego (British-flag argument), and is invariant under a common rotation about the ego. "
                   "The exact clipper returns the footprint itself (area l*w, IoU 1) when a box is clipped by itself, and for any two polygons "
                   "every vertex of its result lies inside every clip edge and inside the subject's convex hull (soundness half). "
-                  "Exactness of shapely's area for rotated boxes is validated, not proved: every run compares IoU2D/IoU3D with the exact "
+                  "Props/C06Clip.v discharges every one of those hypotheses for the EXECUTABLE exact evaluator inter_clip (Sutherland-Hodgman clip + "
+                  "shoelace over Q): 0 <= inter_clip <= min(area e, area g), symmetric, = area for identical footprints, 0 for disjoint/touching boxes, "
+                  "invariant under every common rigid motion -- so IoU2D/IoU3D of the evaluator lie in [0,1], are symmetric, 1 / 0 in the two "
+                  "cases, rigid-invariant and IoU3D <= IoU2D with NO hypothesis (general polygon lemmas: a clipping pass keeps convex CCW polygons "
+                  "convex CCW and never increases the shoelace sum, a line cut is additive, Green's formula for one pass, monotonicity under "
+                  "containment). What ties shapely to that evaluator is the correspondence: every run compares IoU2D/IoU3D with the exact "
                   "clipper inside Coq and with an independent exact hull-based intersection in the Python oracle, within 1e-9.")
-    level_note = ("partial: the identification of shapely's (or the clipper's) area with the measure of the intersection of two ROTATED "
-                  "rectangles is validated numerically, not proved (needs measure theory); the IoU theorems for rotated boxes are "
-                  "conditional on the recorded hypotheses about `inter`. Distances are compared squared (no sqrt in Q). Yaw-only boxes; "
-                  "BASE_LINK frame; BOUNDING_BOX shapes.")
+    level_note = ("partial in one respect only: that the shoelace sum of the clipped polygon IS the Lebesgue measure of the intersection of two "
+                  "rotated rectangles is not stated (no measure theory installed); all IoU laws of the property are theorems about the exact "
+                  "evaluator, and shapely is tied to the evaluator by the per-run comparison (1e-9). Distances are compared squared (no sqrt in Q). "
+                  "Yaw-only boxes; BASE_LINK frame and MAP frame with the ego transform; BOUNDING_BOX shapes.")
     rule = ("box3d: pairs of real DynamicObjects on the k/8 lattice with yaw from 32 rational circle points + 4 axis directions, streams "
             "typical/nested/touching/corner-touching/disjoint/near-disjoint/sliver (to 1:200)/identical/height/tie + a continuous stream (1/25 of "
             "the cases: arbitrary binary64 centres, yaw angles and sizes 0.05..30 m, passed to Coq as exact rationals), each also swapped and after a "
-            "common rigid motion (half of them pure rotations about the ego); roi2d: integer ROI pairs incl. odd/even sizes, 1-pixel ROIs, "
+            "common rigid motion (half of them pure rotations about the ego) and rendered in the MAP frame through that motion as ego pose with the frame's transforms; roi2d: integer ROI pairs incl. odd/even sizes, 1-pixel ROIs, "
             "touching, nested, each also swapped and translated; non-trivial = different boxes with 0 < IoU < 1 or a positive distance")
     assumptions = [
-        "inter(e,g) [= shapely footprint.intersection(footprint).area] >= 0, <= area(e), <= area(g), symmetric, = area for identical "
-        "footprints, = 0 when an edge of one box separates it from the other, invariant under a common rigid motion "
-        "(hypotheses of C06_iou_* in Props/C06.v; validated each run against the exact clipper, not proved)",
+        "shapely's footprint.intersection(footprint).area agrees with the exact evaluator inter_clip within 1e-9 (checked on every generated pair, "
+        "every run); the hypotheses of the abstract C06_iou_* theorems are PROVED for inter_clip (Props/C06Clip.v: C06_clip_inter_satisfies_hypotheses)",
         "yaw-only orientation given by a rational point of the unit circle; the implementation receives the nearest binary64 quaternion",
         "numpy argsort of the 4 corner distances: ties between the 2nd and 3rd nearest corner may resolve either way (AVX-512 argsort is "
         "not stable); both resolutions are accepted on exactly tied inputs, near-ties are excluded from the generated inputs",
         "binary64 rounding in numpy/shapely/pyquaternion is covered by the 1e-9 tolerance, PlaneDistanceMatching's round(.,10) by 6e-11",
     ]
     trusted_base_extra = [
-        "Section hypotheses about `inter` listed in `assumptions` (discharged as explicit premises of C06_iou_unit_interval, C06_iou_sym, "
-        "C06_iou_identical_one, C06_iou_disjoint_zero, C06_iou_rigid_invariant, C06_iou3_le_iou2)",
+        "the abstract C06_iou_* theorems quantify over an intersection-area function with explicit premises; Props/C06Clip.v instantiates them with the "
+        "executable evaluator and proves the premises, so no premise about `inter` remains in the C06_clip_* theorems",
         "Python oracle: exact Fraction geometry in harness/props/C06.py (convex hull of candidate vertices + shoelace; separating-axis gap)",
     ]
     not_proved = [
         "that shapely's intersection().area -- or the Sutherland-Hodgman evaluator clip_area -- equals the Lebesgue measure of the "
         "intersection of two ROTATED rectangles (needs measure theory; mathcomp-analysis is not installed): validated against clip_area "
         "and an independent exact hull computation on every run instead",
-        "for the evaluator clip_area: completeness (nothing of the intersection is missing), area >= 0 / <= min area, symmetry and rigid "
-        "invariance for arbitrary convex inputs (proved: clip(b, b) = b with area l*w; every result vertex lies in both polygons); "
-        "that the hypotheses about `inter` hold for shapely (proved satisfiable by a coarse instance, validated numerically for shapely)",
-        "roll/pitch != 0, POLYGON shapes (BEV centre distance fallback), frames other than BASE_LINK: outside the model",
+        "that shapely itself satisfies the laws (it is compared with the evaluator that provably does); point-set completeness of the clipper "
+        "as such (its area laws -- bounds, symmetry, additivity of cuts, monotonicity -- are proved instead)",
+        "roll/pitch != 0, POLYGON shapes (BEV centre distance fallback): outside the model",
         "binary64 rounding: theorems are over Q; agreement with the floats is measured (1e-9), not proved",
     ]
 
